@@ -442,8 +442,9 @@ def main(tier, seed):
         plan = [(g, 2, [0, 1]) for g in g2] + \
                [(g, 3, ["slim", 0, 1]) for g in g2] + \
                [(g, 2, [0, 1]) for g in g3 if g in noloop] + \
-               [(g, 2, ["slim", 0, 1]) for g in g3 if g not in noloop] + \
-               [(g, 3, ["slim", 0]) for g in g3[::4]] + \
+               [(g, 2, ["slim", 0, 1])
+                for g in [x for x in g3 if x not in noloop][::2]] + \
+               [(g, 3, ["slim", 0]) for g in g3[::8]] + \
                [(g, 2, [0, 1]) for g in families()]
     # split the big plans by first command so that the pool stays busy
     items = []
